@@ -21,7 +21,7 @@ CONSTANTS NumIds,      \* ids IdSeq[1..NumIds]
 (* <<fg, bg>>: "" inherit/default, "-" terminal default, or a colour name *)
 ColorPool == IF Pools = "small"
                THEN { <<"", "">>, <<"RED", "">>, <<"-", "-">> }
-               ELSE { <<"", "">>, <<"RED", "">>, <<"-", "">>, <<"", "BLUE">>, <<"-", "-">>, <<"g3", "(1,2,3)">>, <<"0", "0">> }
+               ELSE { <<"", "">>, <<"RED", "">>, <<"-", "">>, <<"", "BLUE">>, <<"-", "-">>, <<"g23", "(5,0,5)">>, <<"0", "0">> }
 (* [bold |-> -1|0|1, ul |-> -1|1]   (-1 = not mentioned, 0 = no_bold) *)
 ModPool == IF Pools = "small"
              THEN { [bold |-> -1, ul |-> -1], [bold |-> 0, ul |-> 1] }
